@@ -367,11 +367,41 @@ struct Bed
 
 	long tableDigest() { long d = 0; for (const R4& r : sh) d = foldDigest(d, rowHash(r)); return d; }
 
+	// content of every index read through private access: unique hashes as sorted row positions, multi hashes as groups
+	// (key row + value array) of sorted row positions, groups sorted by their first position
+	long indexDigest()
+	{
+		long d = 0; auto& idx = table.mIndexes;
+		for (size_t j = 0; j < idx.mUniqueHashes.GetCount(); ++j)
+		{
+			std::vector<long> pos;
+			for (auto* raw : idx.mUniqueHashes[j].mHashSet) pos.push_back(posOf(static_cast<const void*>(raw)));
+			std::sort(pos.begin(), pos.end());
+			d = foldDigest(d, 7000 + long(j)); for (long q : pos) d = foldDigest(d, q + 1);
+		}
+		for (size_t j = 0; j < idx.mMultiHashes.GetCount(); ++j)
+		{
+			std::vector<std::vector<long>> groups;
+			auto& mm2 = idx.mMultiHashes[j].mHashMultiMap;
+			for (auto keyIter = mm2.GetKeyBounds().GetBegin(); !!keyIter; ++keyIter)
+			{
+				std::vector<long> g{ posOf(static_cast<const void*>(keyIter->key)) };
+				for (size_t q = 0; q < keyIter->GetCount(); ++q) g.push_back(posOf(static_cast<const void*>((*keyIter)[q])));
+				std::sort(g.begin(), g.end()); groups.push_back(g);
+			}
+			std::sort(groups.begin(), groups.end());
+			d = foldDigest(d, 9000 + long(j));
+			for (auto& g : groups) { d = foldDigest(d, 5000 + long(g.size())); for (long q : g) d = foldDigest(d, q + 1); }
+		}
+		return d;
+	}
+
 	// run f with an allocation failure injected at the 1st, 2nd, ... allocation until it completes;
 	// after every failure the table must be exactly what it was
 	template<typename F> void faulty(bool inject, const F& f)
 	{
 		if (!inject) { f(); posValid = false; return; }
+		posValid = false; long idxBefore = indexDigest();
 		for (long k = 1; ; ++k)
 		{
 			g_countdown = k;
@@ -380,6 +410,8 @@ struct Bed
 			{
 				g_countdown = 0; ++g_faults;
 				std::string before = fail;
+				posValid = false;
+				if (indexDigest() != idxBefore) bad("the content of an index (private access dump of mIndexes) changed");
 				verify(sh.size() <= 24);
 				if (before.empty() && !fail.empty()) fail = "after allocation failure #" + std::to_string(k) + ": " + fail;
 			}
@@ -634,7 +666,8 @@ static std::string runOp(Bed& bed, const std::string& text)
 	if (mutating)
 	{
 		bed.verify(sh.size() <= 24 || bed.ops % 16 == 0);
-		out << " #" << table.GetCount() << ":" << bed.tableDigest();
+		bed.posValid = false;
+		out << " #" << table.GetCount() << ":" << bed.tableDigest() << ":" << bed.indexDigest();
 	}
 	return out.str();
 }
